@@ -21,6 +21,16 @@ package main
 //                                        memberships of the labels the pod had before stay (also beyond the
 //                                        pod's deletion, which removes what its last labels match)
 //   pod-address-change-old-address-kept UpdatePod adds the new address; the old one stays in every set
+//   namespace-add-not-handled           the pod informer and the namespace informer lag independently: when a
+//                                        pod event (or a rebuild) is handled before the pod's namespace is in the
+//                                        namespace lister, namespaceSelector peers do not see the pod, and the
+//                                        namespace's later ADDED event has no handler
+//   ipblock-role-change-member-lost     (not an unhandled event but a defect of the rebuild an UpdatePolicy runs,
+//                                        visible only until the next synchronisation repairs it) when an update
+//                                        turns a CIDR of a rule from ipBlock.cidr into ipBlock.except or back,
+//                                        createIPSet first adds the new form with -exist and then deletes the
+//                                        "stale" old form by its bare key - the same hash:net member - so the
+//                                        CIDR is in the set in neither role
 //
 // The "as the handlers have left it" side is the shadow below: a bookkeeping of set members that applies, per
 // handled event, exactly the additions and removals listed above (rebuild on every full synchronisation: policy
@@ -36,14 +46,20 @@ import (
 	"strings"
 )
 
-var eventGapNames = []string{"namespace-relabel-not-handled", "pod-added-with-address-not-handled", "pod-relabel-stale-membership", "pod-address-change-old-address-kept"}
+var eventGapNames = []string{"namespace-relabel-not-handled", "pod-added-with-address-not-handled", "pod-relabel-stale-membership", "pod-address-change-old-address-kept",
+	"namespace-add-not-handled", "ipblock-role-change-member-lost"}
 
 const (
 	gapNs = iota
 	gapAdd
 	gapRelabel
 	gapAddr
+	gapNsAdd // a namespace became visible to the namespace informer after pods of it had been handled
+	gapNet   // a policy update turned a CIDR of a rule from block into exception (or back): the member is lost
+	nGaps
 )
+
+type gapSet [nGaps]bool
 
 // setDef is one galaxy-owned hash:ip set as the documented scheme derives it from a policy.
 type setDef struct {
@@ -125,6 +141,8 @@ type shadow struct {
 	nsRelabelled map[string]bool
 	oldAddr      map[string]bool // addresses pods moved away from since the last rebuild
 	addedWithIP  map[string]bool // pod key: reached the informer with an address, not looked at since
+	nsAddedLate  map[string]bool // namespaces whose ADDED event came after pods of them were known
+	lostNet      map[string]map[string]bool // hash:net set -> members lost by the last rebuild (role change)
 }
 
 func newShadow() *shadow {
@@ -135,6 +153,7 @@ func newShadow() *shadow {
 
 func (s *shadow) reset() {
 	s.relabelled, s.relabelledIP, s.nsRelabelled, s.oldAddr = map[string]bool{}, map[string]bool{}, map[string]bool{}, map[string]bool{}
+	s.nsAddedLate, s.lostNet = map[string]bool{}, map[string]map[string]bool{}
 	if s.addedWithIP == nil {
 		s.addedWithIP = map[string]bool{}
 	}
@@ -250,6 +269,12 @@ func (w *World) trackDelivery(kind, typ, key string, oldJ, newJ []byte, rv uint6
 		if old := w.view.NS[j.Metadata.Name]; old != nil && !sameLabels(old.Labels, l) {
 			w.sh.nsRelabelled[j.Metadata.Name] = true
 			w.S.Stat("c16.eq-ns-relabel")
+		} else if old == nil {
+			for _, p := range w.view.podList() {
+				if p.NS == j.Metadata.Name {
+					w.sh.nsAddedLate[j.Metadata.Name] = true
+				}
+			}
 		}
 		w.view.NS[j.Metadata.Name] = &NSObj{Name: j.Metadata.Name, Labels: l}
 	case "pods":
@@ -284,16 +309,70 @@ func (w *World) trackDelivery(kind, typ, key string, oldJ, newJ []byte, rv uint6
 			w.sh.podPoint(w.view, oldP, false)
 		}
 	case "networkpolicies":
+		var lost map[string]map[string]bool
 		if typ == "DELETED" {
 			delete(w.view.Pols, key)
 		} else if p := w.polByRV[fmt.Sprintf("%s@%d", key, rv)]; p != nil {
+			if old := w.view.Pols[key]; old != nil {
+				lost = roleChanges(old, p)
+			}
 			w.view.Pols[key] = p
 		} else {
 			w.S.Infra = "policy world: no model for delivered policy " + key
 			w.S.Stop()
 		}
 		w.sh.rebuild(w.view)
+		if len(lost) > 0 {
+			w.sh.lostNet = lost
+			w.S.Stat("c16.eq-ipblock-role-change")
+		}
 	}
+}
+
+// roleChanges lists, per hash:net set that exists before and after a policy update, the members whose role
+// changes between "block" and "exception".
+func roleChanges(old, nw *Policy) map[string]map[string]bool {
+	out := map[string]map[string]bool{}
+	roles := func(r PRule) map[string]string {
+		m := map[string]string{}
+		for _, pe := range r.Peers {
+			if pe.Block == nil {
+				continue
+			}
+			if c, ok := netMember(pe.Block.CIDR); ok && !strings.HasSuffix(pe.Block.CIDR, "/0") {
+				m[c] = "block"
+			}
+			for _, ex := range pe.Block.Except {
+				if c, ok := netMember(ex); ok {
+					m[c] = "except"
+				}
+			}
+		}
+		return m
+	}
+	oin, oeg := old.directions()
+	nin, neg := nw.directions()
+	side := func(or, nr []PRule, egress bool) {
+		for i := 0; i < len(or) && i < len(nr); i++ {
+			a, b := roles(or[i]), roles(nr[i])
+			for c, ra := range a {
+				if rb, ok := b[c]; ok && rb != ra {
+					n := peerSetName(nw, egress, i, true)
+					if out[n] == nil {
+						out[n] = map[string]bool{}
+					}
+					out[n][c] = true
+				}
+			}
+		}
+	}
+	if oin && nin {
+		side(old.Ingress, nw.Ingress, false)
+	}
+	if oeg && neg {
+		side(old.Egress, nw.Egress, true)
+	}
+	return out
 }
 
 // gapOf names the event kind that is the cause of galaxy's membership (shadow) differing from the API state for
@@ -306,13 +385,13 @@ func (w *World) gapOf(d setDef, ip string, inShadow bool) int {
 		}
 	}
 	anyNs := len(w.sh.nsRelabelled) > 0
+	lateNs := len(w.sh.nsAddedLate) > 0
 	if inShadow {
 		switch {
 		case w.sh.oldAddr[ip]:
 			return gapAddr
-		case owner != nil && w.sh.relabelled[owner.key()]:
-			return gapRelabel
-		case owner == nil && w.sh.relabelledIP[ip]:
+		case w.sh.relabelledIP[ip], owner != nil && w.sh.relabelled[owner.key()]:
+			// also when the address has meanwhile gone to another pod: the stale membership is the address's
 			return gapRelabel
 		case anyNs && d.hasNsPeer():
 			return gapNs
@@ -324,18 +403,20 @@ func (w *World) gapOf(d setDef, ip string, inShadow bool) int {
 		return gapAdd
 	case anyNs && d.hasNsPeer():
 		return gapNs
+	case lateNs && d.hasNsPeer() && owner != nil && w.sh.nsAddedLate[owner.NS]:
+		return gapNsAdd
 	}
 	return -1
 }
 
 // overridesFor builds the evaluator overrides of the enabled event-gap switches, for one reading of D6.
-func (w *World) overridesFor(d6 bool, enabled [4]bool) (*overrides, [4]bool, []string) {
+func (w *World) overridesFor(d6 bool, enabled gapSet) (*overrides, gapSet, []string) {
 	v := 0
 	if d6 {
 		v = 1
 	}
-	o := &overrides{memb: map[string]map[string]bool{}, invisible: map[string]bool{}}
-	var present [4]bool
+	o := &overrides{memb: map[string]map[string]bool{}, invisible: map[string]bool{}, lostNet: map[string]map[string]bool{}}
+	var present gapSet
 	var extraEnds []string
 	for _, d := range setDefs(w.cl) {
 		sh := w.sh.sets[v][d.name]
@@ -372,6 +453,12 @@ func (w *World) overridesFor(d6 bool, enabled [4]bool) (*overrides, [4]bool, []s
 				}
 				o.memb[d.name][ip] = sh[ip]
 			}
+		}
+	}
+	for _, n := range sortedKeys(w.sh.lostNet) {
+		present[gapNet] = true
+		if enabled[gapNet] {
+			o.lostNet[n] = w.sh.lostNet[n]
 		}
 	}
 	for _, k := range sortedKeys(w.sh.addedWithIP) {
@@ -424,7 +511,10 @@ func (w *World) judgeEventQuiescence() {
 	}
 	_ = rest
 	w.S.Stat("c16.eq-judged")
-	all := [4]bool{true, true, true, true}
+	var all gapSet
+	for i := range all {
+		all[i] = true
+	}
 	_, present, extraEnds := w.overridesFor(true, all)
 	_, present0, extraEnds0 := w.overridesFor(false, all)
 	for i := range present {
@@ -444,7 +534,7 @@ func (w *World) judgeEventQuiescence() {
 		got[i] = a
 	}
 	w.S.Stats["c16.eq-flows"] += len(fl)
-	agree := func(mask int, enabled [4]bool, sample *[]string) bool {
+	agree := func(mask int, enabled gapSet, sample *[]string) bool {
 		sw := switchesFromMask(mask)
 		ref := newRefModel(w.cl, sw, first)
 		ref.over, _, _ = w.overridesFor(sw.D6, enabled)
@@ -461,7 +551,7 @@ func (w *World) judgeEventQuiescence() {
 		return ok
 	}
 	var pureMis []string
-	if agree(0, [4]bool{}, &pureMis) {
+	if agree(0, gapSet{}, &pureMis) {
 		w.S.Stat("c16.eq-agree")
 		return
 	}
@@ -485,16 +575,16 @@ func (w *World) judgeEventQuiescence() {
 		return
 	}
 	// 2. the fewest event-gap switches that are needed on top
-	var need [4]bool
+	var need gapSet
 	found := false
-	for n := 0; n <= 4 && !found; n++ {
-		for em := 0; em < 16 && !found; em++ {
+	for n := 0; n <= nGaps && !found; n++ {
+		for em := 0; em < 1<<nGaps && !found; em++ {
 			if popcount(em) != n {
 				continue
 			}
-			var en [4]bool
+			var en gapSet
 			skip := false
-			for i := 0; i < 4; i++ {
+			for i := 0; i < nGaps; i++ {
 				en[i] = em&(1<<i) != 0
 				if en[i] && !present[i] {
 					skip = true
@@ -517,7 +607,7 @@ func (w *World) judgeEventQuiescence() {
 		" (together with semantic switch(es) %v); e.g. %s", when, gapNames(need), switchesFromMask(sem).names(), strings.Join(pureMis, " ; "))
 }
 
-func gapNames(b [4]bool) string {
+func gapNames(b gapSet) string {
 	var out []string
 	for i, n := range eventGapNames {
 		if b[i] {
